@@ -19,9 +19,10 @@ THEOREMS = [
     dict(name="Snow.C05.profile_antitone", clause="never rises", strength="full"),
     dict(name="Snow.C05.profile_rate", clause="never falls faster than rate*dt per step", strength="full"),
     dict(name="Snow.C05.profile_bounds", clause="stays between end and start temperature", strength="full"),
-    dict(name="Snow.C05.holdCount_dwell", clause="dwell at a hold = duration to within one step", strength="full"),
+    dict(name="Snow.C05.profile_dwell", clause="dwell: after the ramp to a hold the profile has a plateau of c consecutive samples at the hold temperature (as far as the process lasts), with d - dt < c*dt < d + dt", strength="full"),
+    dict(name="Snow.C05.holdCount_dwell", clause="the plateau length c = holdCount satisfies d - dt < c*dt < d + dt (helper of profile_dwell)", strength="full"),
     dict(name="Snow.C05.profile_perm", clause="independent of the listed order of holds", strength="full"),
-    dict(name="Snow.C05.consumers_in_range", clause="every step index of a consumer is a valid sample", strength="full"),
+    dict(name="Snow.C05.consumers_in_range", clause="every step index k < ceil(t_tot/dt)+1 (what Snowflake.run indexes; Snowing iterates the array itself) is a valid sample - a corollary of profile_length", strength="full"),
     dict(name="Snow.C05.profile_tracks_program", clause="agrees with the continuous piecewise-linear program to within one step per program segment (every sample equals the program at a time within 2*dt*(#holds+1))", strength="full"),
     dict(name="Snow.C05.segment_slip", clause="each ramp+hold pair shifts the sampling clock by more than -dt and less than 2*dt", strength="full"),
     dict(name="Snow.C05.mkOpCond_wf", clause="the constructor maps every in-range user input to a well-formed program with the same holds", strength="full"),
